@@ -52,6 +52,7 @@ type Config struct {
 	Batch   int    // commands per block
 	AsyncVotes bool // votes are verified concurrently (the production default) instead of synchronously
 	ActorReuseCmds bool // every other block of the actor re-proposes the commands of an earlier block
+	ActorBridges bool // a partition separates honest replicas only: the Byzantine actor reaches, and is reached by, both sides
 	LoopCap   int  // capacity of every replica's event queue (0: 65536, so that nothing is ever dropped; the repository's wiring uses 100)
 	Latency   bool // every server has a latency matrix (all replicas at one location: zero delay), as experiments with locations have
 	ActorAuto bool // the actor behaves honestly by default (votes, collects, proposes); scripted actions are the deviations
@@ -582,7 +583,12 @@ func (cl *Cluster) reachable(a, b int) bool {
 		}
 		return cl.sameByView(a, b, v)
 	}
-	return cl.Part[a] == cl.Part[b]
+	return cl.Part[a] == cl.Part[b] || cl.bridged(a, b)
+}
+
+// bridged: with Config.ActorBridges a partition does not separate anybody from the Byzantine actor.
+func (cl *Cluster) bridged(a, b int) bool {
+	return cl.Cfg.ActorBridges && (cl.Stacks[a].Kind == "actor" || cl.Stacks[b].Kind == "actor")
 }
 
 // ---- tap ------------------------------------------------------------------------------------------------------
@@ -674,7 +680,7 @@ func (cl *Cluster) Start() {
 func (cl *Cluster) deliverable() []int {
 	var idx []int
 	for i, m := range cl.Pool {
-		if len(cl.Cfg.ByView) > 0 || cl.Part[m.From] == cl.Part[m.To] {
+		if len(cl.Cfg.ByView) > 0 || cl.Part[m.From] == cl.Part[m.To] || cl.bridged(m.From, m.To) {
 			idx = append(idx, i)
 		}
 	}
@@ -799,7 +805,7 @@ func (cl *Cluster) Apply(s Step) {
 			return
 		}
 		for i := len(cl.Pool) - 1; i >= 0; i-- {
-			if m := cl.Pool[i]; cl.Part[m.From] != cl.Part[m.To] {
+			if m := cl.Pool[i]; cl.Part[m.From] != cl.Part[m.To] && !cl.bridged(m.From, m.To) {
 				cl.remove(i)
 				cl.Faults["drop"]++
 			}
